@@ -23,7 +23,8 @@ PROPERTY = {
 RP = {"native": True, "sources": ["a.c", "math.c"]}
 def C(name, fns, **kw):
     kw.setdefault("solver", "cvc5"); kw.setdefault("timeout", 120); kw.setdefault("split", 4); kw.setdefault("min_obl", 2); kw.setdefault("cbmc", ["--slice-formula"])
-    return U(name, "complex.c", "h_" + name, functions=fns, replay=RP, **kw)
+    entry = kw.pop("entry_", "h_" + name)
+    return U(name, "complex.c", entry, functions=fns, replay=RP, **kw)
 EXACT = "exact domain: integer parts |n| <= 8"
 UNITS = [
     C("const_pi", [], key=["A_REAL_PI is pi"]),
@@ -56,25 +57,27 @@ UNITS = [
     C("cosh", ["a_complex_cosh_"], key=["cosh_:"], min_obl=1),
     C("tanh", ["a_complex_tanh_"], key=["tanh_: Re", "tanh_: Im"]),
 ] + [C(n, ["a_complex_%s_" % n], key=[n + "_:"], min_obl=1) for n in ("sec", "csc", "cot", "sech", "csch", "coth")] + [
-    C("asin", ["a_complex_asin_"], key=["Re asin z in"]),
-    C("acos", ["a_complex_acos_"], key=["Re acos z in"]),
-    C("asin_acos_twin", ["a_complex_asin_", "a_complex_acos_"], key=["Im asin z == -Im acos z"], min_obl=1),
-    C("atan", ["a_complex_atan_"], key=["Re atan z in"]),
+    C("asin", ["a_complex_asin_"], key=["Re asin z in"], solver=None),
+    C("acos", ["a_complex_acos_"], key=["Re acos z in"], solver=None),
+    # equality of the two evaluations: cvc5 (congruence); its vacuity guard needs a model of both bodies: SAT back end, sibling unit
+    C("asin_acos_twin", ["a_complex_asin_", "a_complex_acos_"], key=["Im asin z == -Im acos z"], min_obl=1, only=["^(?!.*VERIF_CANARY)"], no_canary=True, split=None),
+    C("asin_acos_twin_reach", [], solver=None, only=["VERIF_CANARY"], min_obl=0, entry_="h_asin_acos_twin"),
+    C("atan", ["a_complex_atan_"], key=["Re atan z in"], solver=None),
     C("inv_real", ["a_complex_asin_real", "a_complex_acos_real", "a_complex_acosh_real", "a_complex_atanh_real", "a_complex_asec_real", "a_complex_acsc_real"], key=["asin_real:", "acsc_real:"]),
     C("inv_real_delegation", ["a_complex_asin_", "a_complex_acos_", "a_complex_atanh_"], key=["asin_real"]),
-    C("asinh", ["a_complex_asinh_"], key=["-i asin\\(i z\\)"], min_obl=1),
-    C("acosh", ["a_complex_acosh_"], key=["acosh z = -i acos z"]),
-    C("acosh_range", ["a_complex_acosh_"], key=["Re acosh z >= 0"]),
-    C("acosh_lower", ["a_complex_acosh_"], key=["lower half plane"], min_obl=1),
-    C("atanh", ["a_complex_atanh_"], key=["-i atan\\(i z\\)"]),
-] + [C(n, ["a_complex_%s_" % n], key=[n + "_:"], min_obl=1) for n in ("asec", "acsc", "asech", "acsch", "acoth")] + [
-    C("acot", ["a_complex_acot_"], key=["acot\\(0\\)"]),
+    C("asinh", ["a_complex_asinh_"], key=["-i asin\\(i z\\)"], min_obl=1, replace=["a_complex_asin_/contract_asin_"]),
+    C("acosh", ["a_complex_acosh_"], key=["acosh z = -i acos z"], replace=["a_complex_acos_/contract_acos_"]),
+    C("acosh_range", ["a_complex_acosh_"], key=["Re acosh z >= 0"], solver=None),
+    C("acosh_lower", ["a_complex_acosh_"], key=["lower half plane"], min_obl=1, solver=None),
+    C("atanh", ["a_complex_atanh_"], key=["-i atan\\(i z\\)"], replace=["a_complex_atan_/contract_atan_"]),
+] + [C(n, ["a_complex_%s_" % n], key=[n + "_:"], min_obl=1, replace=["a_complex_%s_/contract_%s_" % (f, f)]) for n, f in (("asec", "acos"), ("acsc", "asin"), ("asech", "acosh"), ("acsch", "asinh"), ("acoth", "atanh"))] + [
+    C("acot", ["a_complex_acot_"], key=["acot\\(0\\)"], replace=["a_complex_atan_/contract_atan_"]),
     C("wrappers_a", ["a_complex_sqrt", "a_complex_log2", "a_complex_log10", "a_complex_proj"], key=["by-value"]),
     C("wrappers_b", ["a_complex_sin", "a_complex_cos", "a_complex_tan", "a_complex_sec", "a_complex_csc", "a_complex_cot"], key=["by-value"]),
     C("wrappers_c", ["a_complex_sinh", "a_complex_cosh", "a_complex_tanh", "a_complex_sech", "a_complex_csch", "a_complex_coth"], key=["by-value"]),
-    C("wrappers_d", ["a_complex_asin", "a_complex_acos", "a_complex_atan"], key=["by-value"]),
-    C("wrappers_e", ["a_complex_asec", "a_complex_acsc", "a_complex_acot"], key=["by-value"]),
-    C("wrappers_f", ["a_complex_asinh", "a_complex_acosh", "a_complex_atanh"], key=["by-value"]),
-    C("wrappers_g", ["a_complex_asech", "a_complex_acsch", "a_complex_acoth"], key=["by-value"]),
+    C("wrappers_d", ["a_complex_asin", "a_complex_acos", "a_complex_atan"], key=["by-value"], replace=["a_complex_asin_/contract_asin_", "a_complex_acos_/contract_acos_", "a_complex_atan_/contract_atan_"]),
+    C("wrappers_e", ["a_complex_asec", "a_complex_acsc", "a_complex_acot"], key=["by-value"], replace=["a_complex_asin_/contract_asin_", "a_complex_acos_/contract_acos_", "a_complex_atan_/contract_atan_"]),
+    C("wrappers_f", ["a_complex_asinh", "a_complex_acosh", "a_complex_atanh"], key=["by-value"], replace=["a_complex_asinh_/contract_asinh_", "a_complex_acosh_/contract_acosh_", "a_complex_atanh_/contract_atanh_"]),
+    C("wrappers_g", ["a_complex_asech", "a_complex_acsch", "a_complex_acoth"], key=["by-value"], replace=["a_complex_asinh_/contract_asinh_", "a_complex_acosh_/contract_acosh_", "a_complex_atanh_/contract_atanh_"]),
     C("wrappers_h", ["a_complex_pow", "a_complex_pow_real", "a_complex_logb"], key=["by-value"]),
 ]
